@@ -6,6 +6,8 @@
 //	entry sets per fanout: 1 entry; random names (ascii / unicode / spaces / hex-looking prefixes)
 //	  of sizes {5,60,300} x 2 draws | {5,60,300,3000} x 5 draws; murmur3 prefix-colliding names (4 sharing 21 bits,
 //	  plus 3 sharing 12 bits) so that shards nest >= 2 levels for every fanout; mixed.
+//	the empty set and sets of 1 and 2 entries for EVERY fanout 8..1024 in both tiers
+//	  ("sharded:fanout=<f>,n=<k>", "plain:n=0", "quick:n=0"; small_test.go).
 //	builders: BuildUnixFSShardedDirectory(fanout), BuildUnixFSDirectory (plain; in thorough also
 //	  one set of 7000 entries that crosses the 256 KiB auto-shard estimate), quickbuilder.
 //	non-members probed: fresh random names, "", every member with a prefix / suffix changed, the
@@ -242,5 +244,7 @@ func TestBounded(t *testing.T) {
 		}
 		checkDir(r, "auto:7000", st, root, want, rng)
 	}
+
+	smallDirs(t, r, vp.Rng(202))
 	_ = cid.Undef
 }
